@@ -370,40 +370,7 @@ func c18NotInLoop(c *Ctx, rule string, fn *ssa.Function, eff Effect) {
 
 func c18MapRanges(c *Ctx, rule string, roots []*ssa.Function, triaged map[string]string) {
 	_, order := c.Reach(roots, nil)
-	found := map[string]int{}
-	for _, fn := range order {
-		name := funcShortName(fn)
-		for _, b := range fn.Blocks {
-			for _, in := range b.Instrs {
-				rg, ok := in.(*ssa.Range)
-				if !ok {
-					continue
-				}
-				if _, isMap := rg.X.Type().Underlying().(*types.Map); !isMap {
-					continue
-				}
-				found[name]++
-				construct := fmt.Sprintf("maprange:%s#%d", name, found[name])
-				reason, ok := triaged[name]
-				if !ok {
-					c.add("determ", rule, construct, Violated, c.P.InstrPos(in), "range over a map on a replicated apply path is not in the triaged table (iteration order is random): "+Path(rg.X))
-					continue
-				}
-				// the triage argument is "collect then sort": a sort.* call must follow on every path to a return
-				if c.escapesWithout(fn, in, CallTo{"sort.*"}) {
-					c.add("determ", rule, construct, Violated, c.P.InstrPos(in), "triaged map range is no longer followed by a sort.* call on every path to a return: "+reason)
-					continue
-				}
-				c.add("determ", rule, construct, Exception, c.P.InstrPos(in), "triaged: "+reason+" (sort.* post-dominates the loop)")
-			}
-		}
-	}
-	for name := range triaged {
-		if found[name] == 0 {
-			c.add("determ", rule, "maprange:"+name, Undecided, "", "triaged function has no map range any more (stale table entry or function left the apply closure)")
-		}
-	}
-	c.add("determ", rule, "maprange:closure", Held, "", fmt.Sprintf("%d function(s) in the apply closure scanned for map ranges; %d triaged site(s)", len(order), len(found)))
+	c.MapRanges(rule, order, triaged, nil, nil)
 }
 
 // ---------------------------------------------------------------------------
